@@ -5,6 +5,11 @@ C09 driver: one JSON request per line on stdin, one JSON answer per line on stdo
   {"op":"md","mds":[{"ty":str|null,"keys":[..],"cc":bool},..]}              -> {"malformed":bool,"refuses":bool}
   {"op":"inject","blocks":[{"name":..,"fields":[[..],..]},..]}              -> {"malformed":bool,"refuses":bool}
   {"op":"job","blocks":[{"name":..,"script":[..],"deps":[..]},..]}          -> {"malformed":bool,"refuses":bool,"conflict":b,"missing":b,"cyclic":b}
+  {"op":"exec","backend":b,"builtins":[{"name":..,"kind":"code"|"coll","arity":k,"is_method":b}],"env":{"template_dir":b,"render":{file:"before"|"after"}},
+   "jobs":[job blocks the executor holds],"queries":[{"items":[..],"calls":[..],"top":..,"body":py},..]}
+        -> {"runs":[{"refused","cls","idx","in_apply","written":[[name,complete]],"runner_exec","state_jobs","state_injects","job_lines","malformed","spec_ok"},..]}
+     (the queries run one after the other on ONE executor; `malformed` = `execMalformedB` on the input, `spec_ok` = `noPartialPackage` on the model's outcome)
+  {"op":"obs","backend":b,"refused":b,"written":[[name,complete]],"runner_exec":b}  -> {"ok":bool}   (`noPartialPackage` on an observed outcome)
 `malformed` is the Spec predicate on the input (the harness combines it with the outcome it
 observed: `refusedIfMalformed`), `refuses` is the model's own verdict.
 Run: lake env lean --run FaxVerif/C09/Driver.lean
@@ -12,6 +17,8 @@ Run: lake env lean --run FaxVerif/C09/Driver.lean
 import Lean.Data.Json
 import FaxVerif.C09.Model
 import FaxVerif.C09.Spec
+import FaxVerif.C09.ExecModel
+import FaxVerif.C09.ExecSpec
 open Lean FaxVerif.C09
 
 partial def decPy (j : Json) : Except String Py := do
@@ -31,6 +38,107 @@ def isErr {ε α : Type} : Except ε α → Bool
 
 def answer (malformed refuses : Bool) (more : List (String × Json) := []) : Json :=
   Json.mkObj ([("malformed", Json.bool malformed), ("refuses", Json.bool refuses)] ++ more)
+
+def optStr (j : Json) (k : String) (d : String := "") : String :=
+  match j.getObjVal? k with
+  | .ok (.str t) => t
+  | _ => d
+
+def optNat (j : Json) (k : String) : Nat :=
+  match j.getObjVal? k with
+  | .ok v => (v.getNat?.toOption).getD 0
+  | _ => 0
+
+def optBool (j : Json) (k : String) : Bool :=
+  match j.getObjVal? k with
+  | .ok (.bool b) => b
+  | _ => false
+
+def optStrList (j : Json) (k : String) : List String :=
+  match j.getObjVal? k with
+  | .ok v => (strList v).toOption.getD []
+  | _ => []
+
+def decJob (b : Json) : Except String FaxVerif.C15.JB := do
+  pure { name := ← (← b.getObjVal? "name").getStr?, script := ← strList (← b.getObjVal? "script"), deps := ← strList (← b.getObjVal? "deps") }
+
+def decItem (m : Json) : Except String Exec.Item := do
+  let ty := match m.getObjVal? "ty" with
+    | .ok (.str t) => some t
+    | _ => none
+  let keys ← strList (← m.getObjVal? "keys")
+  let cc := optBool m "cc"
+  let fields ← match m.getObjVal? "fields" with
+    | .ok v => (← v.getArr?).toList.mapM strList
+    | _ => pure []
+  pure { md := { ty, keys, cc }, name := optStr m "name", fields, script := optStrList m "script", deps := optStrList m "deps",
+         arity := optNat m "arity", isMethod := optBool m "is_method" }
+
+def decTop (s : String) : Exec.Top :=
+  if s == "noDataset" then .noDataset else if s == "notCall" then .notCall else if s == "callNotName" then .callNotName
+  else if s == "resultTTree" then .resultTTree else .otherCall
+
+def decQuery (j : Json) : Except String Exec.Query := do
+  let items ← (← (← j.getObjVal? "items").getArr?).toList.mapM decItem
+  let calls ← (← (← j.getObjVal? "calls").getArr?).toList.mapM fun c => do
+    pure ({ name := ← (← c.getObjVal? "name").getStr?, site := ⟨optNat c "nargs", optBool c "as_method"⟩, strArg := optBool c "str_arg" } : Exec.Call)
+  let body ← decPy (← j.getObjVal? "body")
+  pure { items, calls, top := decTop (optStr j "top" "otherCall"), body }
+
+def decBackend (j : Json) : Except String Exec.Backend := do
+  let name ← (← j.getObjVal? "backend").getStr?
+  let builtins ← match j.getObjVal? "builtins" with
+    | .ok v => (← v.getArr?).toList.mapM fun d => do
+        let n ← (← d.getObjVal? "name").getStr?
+        let callee : Exec.Callee := if optStr d "kind" == "coll" then .collection else .code ⟨n, optNat d "arity", optBool d "is_method"⟩
+        pure (⟨n, callee⟩ : Exec.Decl)
+    | _ => pure []
+  match FaxVerif.C09.ExecSrc.backends.find? (fun s => s.name == name) with
+  | some s => pure (Exec.Backend.ofSrc s builtins)
+  | none => throw s!"unknown backend {name}"
+
+def decEnv (j : Json) : Exec.Env :=
+  match j.getObjVal? "env" with
+  | .ok e =>
+    let td := match e.getObjVal? "template_dir" with
+      | .ok (.bool b) => b
+      | _ => true
+    let r : String → Exec.RenderResult := fun f =>
+      match e.getObjVal? "render" with
+      | .ok m => (let v := optStr m f; if v == "before" then .failsBeforeOpen else if v == "after" then .failsAfterOpen else .ok)
+      | _ => .ok
+    ⟨td, r⟩
+  | _ => ⟨true, fun _ => .ok⟩
+
+def writtenJson (w : List Exec.Written) : Json :=
+  Json.arr (w.map fun x => Json.arr #[Json.str x.name, Json.bool x.complete]).toArray
+
+def errIdx : Exec.Err → Json
+  | .metadata i _ => Json.num i
+  | .injectConflict i _ => Json.num i
+  | .call i _ => Json.num i
+  | _ => Json.null
+
+def runAll (b : Exec.Backend) : Exec.ExecState → List (Exec.Env × Exec.Query) → List Json
+  | _, [] => []
+  | st, (env, q) :: qs =>
+    let o := Exec.run b env st q
+    let refused := match o.result with
+      | .ok _ => false
+      | .error _ => true
+    let (cls, idx, inApply) := match o.result with
+      | .ok _ => ("", Json.null, false)
+      | .error e => (e.cls, errIdx e, e.inApply)
+    let jobLines := match o.result with
+      | .ok p => Json.arr (p.jobLines.map Json.str).toArray
+      | .error _ => Json.null
+    Json.mkObj [("refused", Json.bool refused), ("cls", Json.str cls), ("idx", idx), ("in_apply", Json.bool inApply),
+      ("written", writtenJson o.written), ("runner_exec", Json.bool o.runnerExec),
+      ("state_jobs", Json.arr (o.state.jobs.map (fun jb => Json.str jb.name)).toArray),
+      ("state_injects", Json.arr (o.state.injects.map (fun ib => Json.str ib.name)).toArray),
+      ("job_lines", jobLines),
+      ("malformed", Json.bool (Exec.execMalformedB b env st q)),
+      ("spec_ok", Json.bool (Exec.noPartialPackage b refused o.written o.runnerExec))] :: runAll b o.state qs
 
 def handleOp (j : Json) : Except String Json := do
   let op ← (← j.getObjVal? "op").getStr?
@@ -65,6 +173,27 @@ def handleOp (j : Json) : Except String Json := do
     pure (answer (jobMalformedB bs) (isErr (FaxVerif.C15.genScript bs))
       [("conflict", Json.bool (decide (FaxVerif.C15.Conflict bs))), ("missing", Json.bool (decide (FaxVerif.C15.Missing bs))),
        ("cyclic", Json.bool (!FaxVerif.C15.acyclicB bs))])
+  else if op == "exec" then
+    let b ← decBackend j
+    let env := decEnv j
+    let jobs ← match j.getObjVal? "jobs" with
+      | .ok v => (← v.getArr?).toList.mapM decJob
+      | _ => pure []
+    let qs ← (← (← j.getObjVal? "queries").getArr?).toList.mapM fun qj => do
+      -- a query may carry its own "env" (what ITS translation meets)
+      let e := match qj.getObjVal? "env" with
+        | .ok _ => decEnv qj
+        | _ => env
+      pure (e, ← decQuery qj)
+    pure (Json.mkObj [("runs", Json.arr (runAll b ⟨jobs, []⟩ qs).toArray)])
+  else if op == "obs" then
+    let b ← decBackend j
+    let w ← (← (← j.getObjVal? "written").getArr?).toList.mapM fun x => do
+      let a ← x.getArr?
+      match a.toList with
+      | [n, c] => pure (⟨← n.getStr?, ← c.getBool?⟩ : Exec.Written)
+      | _ => throw "written: [name, complete] expected"
+    pure (Json.mkObj [("ok", Json.bool (Exec.noPartialPackage b (← (← j.getObjVal? "refused").getBool?) w (← (← j.getObjVal? "runner_exec").getBool?)))])
   else throw s!"unknown op {op}"
 
 def handle (line : String) : String :=
